@@ -187,14 +187,14 @@ def run_A(scn: Dict[str, Any], on, plugins=()) -> Dict[str, Any]:
                 res["error"]["expected"] = True
                 mon.probe("hostile_config_rejected_" + exp["kind"])
             else:
-                mon.viol("C18", "hostile_config_wrong_error", {"kind": exp["kind"], "got": res["error"]["type"],
+                mon.viol(exp.get("property", "C18"), "hostile_config_wrong_error", {"kind": exp["kind"], "got": res["error"]["type"],
                                                               "msg": res["error"]["msg"], "want": exp["types"]})
                 res["error"]["expected"] = True
         for p in mon.plugins:
             p.setup_failed(mon, res["error"])
         return _finish_result(res, mon, ctx)
     if scn.get("expect_setup_error") is not None:
-        mon.viol("C18", "hostile_config_accepted", {"kind": scn["expect_setup_error"]["kind"]})
+        mon.viol(scn["expect_setup_error"].get("property", "C18"), "hostile_config_accepted", {"kind": scn["expect_setup_error"]["kind"]})
     res["phase"] = "run"
     mon.ext["runner"] = runner
     mon.ext["cfg"] = cfg
